@@ -99,6 +99,7 @@ Definition run_ping (args : list str) : str := hexlist (List.map wire_of (handle
 Definition run_C17 (suite : str) (args : list str) : option str :=
   if streqb suite (bs "pingnick.ping") then Some (run_ping args)
   else if streqb suite (bs "pingnick.flood") then Some (run_ping args)
+  else if streqb suite (bs "pingnick.bg") then Some (run_ping (tl args))
   else if streqb suite (bs "pingnick.seq") then Some (run_seq args)
   else if streqb suite (bs "pingnick.collide") then Some (run_seq args)
   else if streqb suite (bs "pingnick.edge") then Some (run_seq args)
